@@ -3,26 +3,32 @@ package simrt
 import (
 	"reflect"
 	"sort"
+	"unsafe"
 )
 
 // Package-level state of the program under test.  The instrumenter generates one
 // file per instrumented package that registers every package-level variable.  The
-// first Run of a process snapshots them (one level deep: maps and slices are
-// copied, everything else by value); every later Run restores the snapshot first,
-// so that a run which changes process-wide state (a memo table, a counter, a
-// grammar table entry) cannot influence the next run and replays in the same
-// process see what the original run saw.  State reachable only through pointers is
-// not restored.
+// first Run of a process snapshots them; every later Run restores the snapshot first,
+// so that a run which changes process-wide state (a memo table, a counter, a grammar
+// table entry, a free list behind a pointer) cannot influence the next run and replays
+// in the same process see what the original run saw.
+//
+// Depth of the snapshot: maps and slices are copied (their elements by value);
+// structs field by field; a pointer to a struct type of the program under test is
+// followed (two levels) and the pointee is restored in place, so that the pointer
+// keeps its identity.  Anything further away is not restored.
+
+const programModule = "github.com/krotik/ecal"
 
 type stateVar struct {
 	name string
 	ptr  reflect.Value // pointer to the variable
-	snap reflect.Value
 }
 
 var (
-	stateVars  []*stateVar
-	stateTaken bool
+	stateVars    []*stateVar
+	stateTaken   bool
+	stateRestore []func()
 )
 
 // RegisterVar is called from generated init functions.
@@ -60,17 +66,49 @@ func cloneShallow(v reflect.Value) reflect.Value {
 	}
 }
 
+func inProgram(t reflect.Type) bool {
+	pp := t.PkgPath()
+	return len(pp) >= len(programModule) && pp[:len(programModule)] == programModule
+}
+
+// snapshotInto records how to restore the addressable value v.
+func snapshotInto(v reflect.Value, depth int) {
+	switch v.Kind() {
+	case reflect.Ptr:
+		saved := cloneShallow(v)
+		stateRestore = append(stateRestore, func() { v.Set(saved) })
+		if !v.IsNil() && depth < 2 && v.Elem().Kind() == reflect.Struct && inProgram(v.Elem().Type()) {
+			snapshotInto(v.Elem(), depth+1)
+		}
+	case reflect.Struct:
+		if !inProgram(v.Type()) {
+			saved := cloneShallow(v)
+			stateRestore = append(stateRestore, func() { v.Set(saved) })
+			return
+		}
+		for i := 0; i < v.NumField(); i++ {
+			f := v.Field(i)
+			// (fields may be unexported: address them directly)
+			f = reflect.NewAt(f.Type(), unsafe.Pointer(f.UnsafeAddr())).Elem()
+			snapshotInto(f, depth)
+		}
+	default:
+		saved := cloneShallow(v)
+		stateRestore = append(stateRestore, func() { v.Set(cloneShallow(saved)) })
+	}
+}
+
 func resetProgramState() {
 	if !stateTaken {
 		stateTaken = true
 		sort.SliceStable(stateVars, func(i, j int) bool { return stateVars[i].name < stateVars[j].name })
 		for _, sv := range stateVars {
-			sv.snap = cloneShallow(sv.ptr.Elem())
+			snapshotInto(sv.ptr.Elem(), 0)
 		}
 		return
 	}
-	for _, sv := range stateVars {
-		sv.ptr.Elem().Set(cloneShallow(sv.snap))
+	for _, f := range stateRestore {
+		f()
 	}
 }
 
